@@ -26,7 +26,8 @@ from harness.gen import c24lib as L
 DRIVERS = ["drv_c24"]
 RULE = ("one case = one generated Modelica model (3-7 equations over + - * / ^, unary sign, der, sin/cos/tan, time, "
         "literals incl. 7-17 significant digits, exponent forms, large and small magnitudes; plain, underscore, builtin-like and dotted names; parameter/constant/input/output/state/plain "
-        "variables) pushed through parse, flatten, SymPy generate, compile, stubbed execution and exact evaluation at 3 "
+        "variables, each category also inside sub-components; der of states and of products/sums/differences/powers of "
+        "states) pushed through parse, flatten, SymPy generate, compile, stubbed execution and exact evaluation at 3 "
         "points, plus the model correspondence; streams: main (arbitrary nesting unless the unparenthesised printer is "
         "detected), nested (operands that need parentheses), collide (names with equal mangling: open finding C24-F2), "
         "value (expression-valued parameters), reserved (Python keywords / template names), other-prefix (discrete) "
@@ -75,11 +76,33 @@ class G:
             return self.var()
         if r < 0.88:
             return self.num()
-        if r < 0.93 and self.allow_time:
+        if r < 0.91 and self.allow_time:
             return ["v", "time"]
         if self.states:
-            return ["d", ["v", self.rng.choice(self.states)]]
+            return self.der()
         return self.var()
+
+    def der(self):
+        """der of a state, or of a composite of states (product, sum, difference, power, scaled, with time):
+        every variable below `der` becomes a state in the flat model."""
+        st = lambda: ["v", self.rng.choice(self.states)]
+        r = self.rng.random()
+        if r < 0.45:
+            return ["d", st()]
+        k = self.rng.choice(["*", "+", "-", "^", "scale", "time", "mix", "/"])
+        if k in ("*", "+", "-"):
+            arg = ["b", k, st(), st()]
+        elif k == "^":
+            arg = ["b", "^", st(), ["n", self.rng.choice(["2", "3"])]]
+        elif k == "scale":
+            arg = ["b", "*", ["n", self.rng.choice(["2", "0.5", "3"])], st()]
+        elif k == "time":
+            arg = ["b", self.rng.choice("*+-"), ["v", "time"], st()]
+        elif k == "/":
+            arg = ["b", "/", st(), ["b", "+", ["b", "^", st(), ["n", "2"]], ["n", "1"]]]
+        else:
+            arg = ["b", self.rng.choice("+-"), ["b", "*", st(), st()], ["b", "^", st(), ["n", "2"]]]
+        return ["d", arg]
 
     def expo(self, depth, sub):
         r = self.rng.random()
@@ -239,7 +262,7 @@ def gen_case(rng, stream, printer):
         ncls = rng.randint(1, 2)
         for ci in range(ncls):
             mem = rng.sample(MEMBERS, rng.randint(1, 3))
-            subs.append({"cls": "S%d" % ci, "decls": [{"n": m, "pre": ""} for m in mem]})
+            subs.append({"cls": "S%d" % ci, "decls": [_sub_decl(rng, m) for m in mem]})
         for iname in rng.sample(INSTS, rng.randint(1, 2)):
             s = rng.choice(subs)
             insts.append({"n": iname, "cls": s["cls"]})
@@ -286,8 +309,10 @@ def gen_case(rng, stream, printer):
     cls_of = {x["cls"]: x for x in case["subs"]}
     dotted = ["%s.%s" % (i["n"], d["n"]) for i in case["insts"] for d in cls_of[i["cls"]]["decls"]]
     names = [d["n"] for d in case["decls"]] + dotted
-    nonconst = [d["n"] for d in case["decls"] if d["pre"] in ("", "output")] + dotted
-    nstates = rng.choice([0, 1, 1, 2]) if nonconst else 0
+    nonconst = [d["n"] for d in case["decls"] if d["pre"] in ("", "output")] + \
+        ["%s.%s" % (i["n"], d["n"]) for i in case["insts"] for d in cls_of[i["cls"]]["decls"]
+         if d.get("pre", "") in ("", "input", "output")]
+    nstates = rng.choice([0, 1, 1, 2, 2, 3]) if nonconst else 0
     states = rng.sample(nonconst, min(nstates, len(nonconst)))
     g = G(rng, names, states)
     neq = rng.randint(3, 7)
@@ -328,6 +353,23 @@ def gen_case(rng, stream, printer):
             eqs[i][1] = ["b", rng.choice("+-"), eqs[i][1], ["v", n]]
     case["eqs"] = eqs
     return case
+
+
+def _sub_decl(rng, m):
+    """Declarations inside sub-components carry every category too (flatten keeps parameter/constant and
+    strips input/output below the top level), so that each list of the class contains dotted names."""
+    r = rng.random()
+    if r < 0.2:
+        return {"n": m, "pre": "parameter", "val": ["n", rng.choice(["2", "0.5", "9.81"])]}
+    if r < 0.38:
+        return {"n": m, "pre": "constant", "val": ["n", rng.choice(["3", "1.5", "4"])]}
+    if r < 0.48:
+        return {"n": m, "pre": "input"}
+    if r < 0.58:
+        return {"n": m, "pre": "output"}
+    if r < 0.68:
+        return {"n": m, "pre": "", "start": ["n", rng.choice(["1", "0.25"])]}
+    return {"n": m, "pre": ""}
 
 
 def _dedupe_stems(pool):
@@ -382,7 +424,8 @@ def builtin_like():
 
 
 # ---- points ------------------------------------------------------------------------------------
-def points(case, names):
+def points(case, names, fixed=()):
+    """Three evaluation points; `fixed` = constants and parameters (d/dt = 0)."""
     rng = random.Random(case["pts"])
     pts = []
     for k in range(3):
@@ -396,6 +439,8 @@ def points(case, names):
                 v = Fraction(rng.choice([-7, -5, -3, -1, 1, 3, 5, 7, 2, 4, -2, -4, 6]), rng.choice([1, 1, 1, 2]))
             env[n] = v
             denv[n] = Fraction(rng.choice([-9, -6, -4, 4, 6, 9, 11]), rng.choice([1, 2]))
+            if n in fixed:
+                denv[n] = Fraction(0)
         pts.append((env, denv))
     return pts
 
@@ -483,6 +528,10 @@ def run_real(case, ctx=None):
                 ctx.notes.append("text path and AST path of the front end differ on a case (text path used)")
         out = full
     return out
+
+
+def fixed_names(syms):
+    return set(s["name"] for s in syms if "constant" in s["prefixes"] or "parameter" in s["prefixes"])
 
 
 def expected_lists(syms):
@@ -618,7 +667,9 @@ def check_case(ctx, case, drv, printer):
              {"stage": "eqs"}, len(feqs), None if eqs is None else len(eqs))
     else:
         names = [s["name"] for s in syms]
-        pts = points(case, names)
+        pts = points(case, names, fixed_names(syms))
+        # a symbol made with sympy.symbols() is constant in t, one made with dynamicsymbols() is not
+        sym_kind_fixed = set(node_flat[i] for i, (kind, _) in node_info.items() if kind == "sym" and i in node_flat)
 
         def symname(n):
             f = node_flat.get(id(n))
@@ -640,7 +691,11 @@ def check_case(ctx, case, drv, printer):
                 if ref[0] != "ok":
                     ctx.count("point-skipped:" + ref[1].split(":")[0])
                     continue
-                got = L.outcome(lambda: L.eval_term(gterm, env, denv, "**"))
+                gdenv = {n: (Fraction(0) if n in sym_kind_fixed else v) for n, v in denv.items()}
+                for n in names:
+                    if n not in sym_kind_fixed and n in fixed_names(syms):
+                        gdenv[n] = Fraction(7, 3)       # a constant created as a function of t: d/dt is not 0
+                got = L.outcome(lambda: L.eval_term(gterm, env, gdenv, "**"))
                 anyok = True
                 if got != ref:
                     viol("an element of eqs evaluates differently from lhs - rhs of the flat equation",
@@ -670,7 +725,7 @@ def model_tie(ctx, case, drv, printer, real, obj, np_flags):
         return
     syms, feqs, src = real["syms"], real["eqs"], real["src"]
     names = [s["name"] for s in syms]
-    pts = points(case, names)
+    pts = points(case, names, fixed_names(syms))
     req = {"op": "model", "B": builtin_like(), "variant": "cur" if printer == "cur" else "fix", "other_as_var": _OTHER_AS_VAR[0],
            "syms": syms, "eqs": feqs,
            "points": [{"env": {n: frs(v) for n, v in env.items()}, "denv": {n: frs(v) for n, v in denv.items()}}
@@ -726,7 +781,9 @@ def model_tie(ctx, case, drv, printer, real, obj, np_flags):
             ref = L.outcome(lambda: L.eval_term(["b", "-", fe[0], fe[1]], env, denv, "^"))
             mv = ans["values"][i][k]
             if ref[0] == "ok":
-                if mv != frs(Fraction(ref[1])):
+                if mv is None and (L.has_composite_der(fe[0]) or L.has_composite_der(fe[1])):
+                    ctx.count("model-eval-skipped:der-of-composite")    # the model evaluates der of a variable only
+                elif mv != frs(Fraction(ref[1])):
                     ctx.disagreement("eval", dict(kcase, focus=dict(kcase["focus"], what="eval", eq=i, point=k)), mv, ref)
             elif ref[1] in ("div0", "inexact", "der") and mv is not None:
                 ctx.disagreement("eval", dict(kcase, focus=dict(kcase["focus"], what="eval", eq=i, point=k)), mv, ref)
